@@ -26,6 +26,9 @@ M = [
     ("C09", "permission check skipped when a key is given", "src/lib/security.rs", "if key == None || has_permission(client, key.unwrap(), db, &permission_required) {", "if key != None || has_permission(client, key.unwrap(), db, &permission_required) {"),
     ("C09", "missing $$token accepted as valid", "src/lib/db_ops.rs", "            value == token\n        }\n        None => false,\n    }\n}\n\npub fn is_valid_user_token", "            value == token\n        }\n        None => true,\n    }\n}\n\npub fn is_valid_user_token"),
     ("C09", "user without list gets access", "src/lib/security.rs", "None => client.selected_db_user_name().is_none(),", "None => true,"),
+    ("C09", "set asks for read permission only", "src/lib/process_request.rs", "                respose\n            },\n            PermissionKind::Write,\n        ),\n\n        Request::ReplicateRemove", "                respose\n            },\n            PermissionKind::Read,\n        ),\n\n        Request::ReplicateRemove"),
+    ("C09", "remove is guarded on another key", "src/lib/process_request.rs", "            &key,\n            &|_db| remove_key(&key, _db),", "            &String::from(\"x\"),\n            &|_db| remove_key(&key, _db),"),
+    ("C08", "get is guarded on another key", "src/lib/process_request.rs", "            &key,\n            &|_db| get_key_value(&key, &client.sender, _db),", "            &String::from(\"x\"),\n            &|_db| get_key_value(&key, &client.sender, _db),"),
     # ---- C10
     ("C10", "unchecked increment", "src/lib/bo.rs", "let next = match current.checked_add(inc) {\n                        Some(next) => next.to_string(),", "let next = match Some(current + inc) {\n                        Some(next) => next.to_string(),"),
     ("C10", "unchecked version step", "src/lib/bo.rs", "            self.version.saturating_add(1)\n        }", "            self.version + 1\n        }"),
